@@ -704,3 +704,372 @@ Section Instances.
       + intros q Hq. apply trim_space_tok. rewrite Forall_forall in Htok. apply Htok, Hq.
   Qed.
 End Instances.
+
+(** ------------------------------------------------------------ what the readers see in the writers' output *)
+
+Lemma attr_get_here k v r : attr_get k ((k, v) :: r) = Some v.
+Proof. cbn [attr_get]. rewrite seqb_refl. reflexivity. Qed.
+
+Lemma cut_forest_map {E R} (conv : E -> relem R * bool) l :
+  Forall (fun e => snd (conv e) = false) l ->
+  cut_forest conv l false = (map (fun e => fst (conv e)) l, false).
+Proof.
+  induction 1 as [|e l He _ IH]; [reflexivity|]. cbn [cut_forest map]. rewrite He, IH. reflexivity.
+Qed.
+
+Lemma jfind_map_id {A} (f : jvalue -> A) k m : jfind_map f k m = option_map f (jget k m).
+Proof.
+  unfold jget. induction m as [|[k' v] r IH]; [reflexivity|]. cbn [jfind_map]. rewrite IH.
+  destruct (jfind_map (fun x => x) k r); [reflexivity|]. destruct (seqb k' k); reflexivity.
+Qed.
+
+Lemma faithful_map {R} (F : rawfmt R) (f : item -> relem R) kids :
+  Forall (fun k => faithful1 F k (f k)) kids -> faithful F kids (map f kids).
+Proof. induction 1; cbn [map]; constructor; assumption. Qed.
+
+Section Faithfulness.
+  Variable G : registry.
+  Hypothesis Hok : registry_ok G.
+
+  Lemma xml_start_leaf ty tag value : 2 <= ty <= 10 -> tag_ok tag = true ->
+    let na := xml_start G ty tag in
+    let attrs := snd na ++ [(s_value, value)] in
+    resolve_tag G (xml_raw_tag (fst na) attrs) = tag /\ xml_type attrs = ty /\ xml_value attrs = value.
+  Proof.
+    intros Hty Htag. destruct (type_roundtrip ty ltac:(lia)) as [Hrt _].
+    unfold xml_start. replace (ty =? T_STRUCT) with false by (unfold T_STRUCT; lia).
+    destruct (r_tag_name G tag) as [[|c n]|] eqn:E; cbn [fst snd app]; cbv zeta.
+    2: { destruct (rk_tag G Hok tag (c :: n) E) as [_ [Hne _]].
+         unfold xml_raw_tag, xml_type, xml_value. rewrite (seqb_neq _ _ Hne).
+         rewrite attr_get_here. cbn [attr_get]. change (seqb s_type s_value) with false. cbv iota. rewrite seqb_refl.
+         split; [apply (resolve_tag_named G Hok), E|]. split; [exact Hrt|reflexivity]. }
+    all: unfold xml_raw_tag, xml_type, xml_value; change (seqb s_TTLV s_TTLV) with true; cbv iota;
+      rewrite attr_get_here; cbn [attr_get]; change (seqb s_tag s_type) with false; change (seqb s_tag s_value) with false;
+      change (seqb s_type s_value) with false; cbv iota; rewrite !seqb_refl;
+      (split; [apply (resolve_tag_hex G), Htag|]); (split; [exact Hrt|reflexivity]).
+  Qed.
+
+  Lemma xml_start_struct tag : tag_ok tag = true ->
+    let na := xml_start G T_STRUCT tag in
+    resolve_tag G (xml_raw_tag (fst na) (snd na)) = tag /\ xml_type (snd na) = T_STRUCT.
+  Proof.
+    intros Htag. unfold xml_start. change (T_STRUCT =? T_STRUCT) with true. cbv iota.
+    destruct (r_tag_name G tag) as [[|c n]|] eqn:E; cbn [fst snd app]; cbv zeta.
+    2: { destruct (rk_tag G Hok tag (c :: n) E) as [_ [Hne _]].
+         unfold xml_raw_tag, xml_type. rewrite (seqb_neq _ _ Hne). cbn [attr_get].
+         split; [apply (resolve_tag_named G Hok), E|reflexivity]. }
+    all: unfold xml_raw_tag, xml_type; change (seqb s_TTLV s_TTLV) with true; cbv iota;
+      rewrite attr_get_here; cbn [attr_get]; change (seqb s_tag s_type) with false; cbv iota;
+      (split; [apply (resolve_tag_hex G), Htag|reflexivity]).
+  Qed.
+
+  Lemma xml_relem_leaf ty tag value : 2 <= ty <= 10 -> tag_ok tag = true ->
+    xml_relem G (xml_leaf G ty tag value) = (RE tag ty value [] false, false).
+  Proof.
+    intros Hty Htag. destruct (xml_start_leaf ty tag value Hty Htag) as [H1 [H2 H3]]. cbv zeta in H1, H2, H3.
+    unfold xml_leaf. cbn [xml_relem cut_forest fst snd]. rewrite H1, H2, H3.
+    replace (ty =? T_STRUCT) with false by (unfold T_STRUCT; lia). reflexivity.
+  Qed.
+
+  (** the XML writer's output is read back call for call *)
+  Lemma xml_item_faithful : forall i, xml_item_ok i = true ->
+    snd (xml_relem G (xml_write1 G i)) = false /\
+    faithful1 (xml_fmt G) i (fst (xml_relem G (xml_write1 G i))).
+  Proof.
+    unfold xml_item_ok.
+    induction i as [tag kids IH|tag v|tag v|tag v|tag rtag v|tag b|tag s|tag s|tag v|tag v|tag rtag v] using item_ind';
+      cbn [text_item_ok xml_write1]; intros Hi;
+      (match type of Hi with (tag_ok _ && _) = true => apply andb_true_iff in Hi as [Htag Hv] | tag_ok _ = true => rename Hi into Htag end);
+      try (rewrite xml_relem_leaf by (unfold T_INT, T_LONG, T_BIG, T_ENUM, T_BOOL, T_TEXT, T_BYTES, T_DATE, T_INTV; auto; lia));
+      try (split; [reflexivity|cbn [fst]; constructor; cbn [xml_fmt p_int p_long p_big p_enum p_bool p_text p_bytes p_date p_intv p_mask]]).
+    - (* structure *)
+      destruct (xml_start_struct tag Htag) as [H1 H2]. cbv zeta in H1, H2.
+      assert (Hk : Forall (fun k => snd (xml_relem G (xml_write1 G k)) = false /\
+                                    faithful1 (xml_fmt G) k (fst (xml_relem G (xml_write1 G k)))) kids).
+      { rewrite Forall_forall in *. intros k Hin. apply IH; [exact Hin|]. rewrite forallb_forall in Hv. apply Hv, Hin. }
+      cbn [xml_relem]. rewrite H1, H2. change (T_STRUCT =? T_STRUCT) with true. cbv iota.
+      rewrite cut_forest_map.
+      + cbn [fst snd]. split; [reflexivity|]. rewrite map_map. constructor.
+        apply (faithful_map (xml_fmt G) (fun k => fst (xml_relem G (xml_write1 G k)))).
+        eapply Forall_impl; [|exact Hk]. intros k [_ Hf]. exact Hf.
+      + rewrite Forall_map. eapply Forall_impl; [|exact Hk]. intros k [Hc _]. exact Hc.
+    - rewrite go_parse_int_fmt_int by (unfold in_i32 in Hv; lia). cbn [bind]. rewrite to_i32_id by exact Hv. reflexivity.
+    - apply go_parse_int_fmt_int; unfold in_i64 in Hv; lia.
+    - destruct (big_bytes_roundtrip v 1) as [_ [Hb Hr]]. rewrite hex_decode_encode by exact Hb. cbn [bind]. exact Hr.
+    - apply (enum_roundtrip G Hok). exact Hv.
+    - destruct b; reflexivity.
+    - rewrite xml_carry_id by exact Hv. reflexivity.
+    - apply hex_decode_encode. exact Hv.
+    - apply rfc3339_roundtrip. exact Hv.
+    - apply go_parse_uint_fmt_int. unfold in_u32 in Hv. lia.
+    - apply (xml_mask_roundtrip G Hok). exact Hv.
+  Qed.
+
+  (** C04, XML: for all representable call sequences the reader's view of the written document
+      mirrors the calls (the law of Cursor.v), and nothing is flagged invalid *)
+  Theorem xml_faithful items : forallb xml_item_ok items = true ->
+    faithful (xml_fmt G) items (fst (xml_forest G (xml_write G items) false)) /\
+    snd (xml_forest G (xml_write G items) false) = false.
+  Proof.
+    intros Hi. unfold xml_forest, xml_write.
+    assert (Hk : Forall (fun k => snd (xml_relem G (xml_write1 G k)) = false /\
+                                  faithful1 (xml_fmt G) k (fst (xml_relem G (xml_write1 G k)))) items).
+    { rewrite Forall_forall. intros k Hin. apply xml_item_faithful. rewrite forallb_forall in Hi. apply Hi, Hin. }
+    rewrite cut_forest_map.
+    - cbn [fst snd]. split; [|reflexivity]. rewrite map_map.
+      apply (faithful_map (xml_fmt G) (fun k => fst (xml_relem G (xml_write1 G k)))).
+      eapply Forall_impl; [|exact Hk]. intros k [_ Hf]. exact Hf.
+    - rewrite Forall_map. eapply Forall_impl; [|exact Hk]. intros k [Hc _]. exact Hc.
+  Qed.
+
+  Lemma xml_cursor_write i : xml_item_ok i = true ->
+    exists e, xml_cursor G (xml_write G [i]) false = Ok ([e], false) /\ faithful1 (xml_fmt G) i e.
+  Proof.
+    intros Hi. destruct (xml_item_faithful i Hi) as [Hc Hf].
+    exists (fst (xml_relem G (xml_write1 G i))). split; [|exact Hf].
+    unfold xml_cursor, xml_write, xml_forest. cbn [map cut_forest]. rewrite Hc. reflexivity.
+  Qed.
+
+  (** typed re-reading of an XML document returns the calls that wrote it *)
+  Theorem xml_reread_roundtrip i : xml_item_ok i = true -> xml_reread G i (xml_write G [i]) false = Ok i.
+  Proof.
+    intros Hi. destruct (xml_cursor_write i Hi) as [e [Hc Hf]]. unfold xml_reread. rewrite Hc. cbn [bind].
+    rewrite (proj1 (read_faithful (xml_fmt G)) i e Hf []). reflexivity.
+  Qed.
+
+  (** a ttlv.Value written in XML and read back is the same value (hence the same binary) *)
+  Theorem xml_value_roundtrip i : xml_item_ok i = true -> value_item i = true ->
+    xml_unmarshal G (xml_write G [i]) false = Ok i.
+  Proof.
+    intros Hi Hv. destruct (xml_cursor_write i Hi) as [e [Hc Hf]]. unfold xml_unmarshal. rewrite Hc. cbn [bind].
+    pose proof (faithful1_tag (xml_fmt G) i e Hf) as Ht. unfold c_tag. cbn [fst]. destruct e as [t y raw kids kb]. subst t.
+    rewrite (proj1 (dec_faithful (xml_fmt G)) i _ Hf Hv); [reflexivity|]. cbn [forest_size fold_right]. lia.
+  Qed.
+
+  (** ---- JSON *)
+
+  Lemma json_relem_obj m :
+    json_relem G (JObj m) =
+    let tag := resolve_tag G (jget_str s_tag m) in
+    let ty := json_type m in
+    let kids := jfind_map (fun x => match x with JArr l => (map (json_relem G) l, false) | _ => ([], true) end) s_value m in
+    let raw := match jget s_value m with Some x => x | None => JNull end in
+    if ty =? T_STRUCT then
+      match kids with
+      | Some kb => RE tag ty raw (fst kb) (snd kb)
+      | None => RE tag ty raw [] true
+      end
+    else RE tag ty raw [] false.
+  Proof. reflexivity. Qed.
+
+  Lemma json_relem_leaf ty tag v : 2 <= ty <= 10 -> tag_ok tag = true ->
+    json_relem G (json_elem G ty tag v) = RE tag ty v [] false.
+  Proof.
+    intros Hty Htag. destruct (type_roundtrip ty ltac:(lia)) as [Hrt Hne].
+    unfold json_elem. replace (ty =? T_STRUCT) with false by (unfold T_STRUCT; lia). cbn [app].
+    rewrite json_relem_obj. cbv zeta.
+    assert (Ht : jget_str s_tag [(s_tag, JStr (tag_string G tag)); (s_type, JStr (type_name ty)); (s_value, v)] = tag_string G tag) by reflexivity.
+    assert (Hy : json_type [(s_tag, JStr (tag_string G tag)); (s_type, JStr (type_name ty)); (s_value, v)] = ty).
+    { unfold json_type. change (jget_str s_type _) with (type_name ty). destruct (type_name ty) eqn:E; [congruence|exact Hrt]. }
+    assert (Hv : jget s_value [(s_tag, JStr (tag_string G tag)); (s_type, JStr (type_name ty)); (s_value, v)] = Some v) by reflexivity.
+    rewrite Ht, Hy, Hv, (resolve_tag_string G Hok) by exact Htag.
+    replace (ty =? T_STRUCT) with false by (unfold T_STRUCT; lia). reflexivity.
+  Qed.
+
+  Lemma json_relem_struct tag l : tag_ok tag = true ->
+    json_relem G (json_elem G T_STRUCT tag (JArr l)) = RE tag T_STRUCT (JArr l) (map (json_relem G) l) false.
+  Proof.
+    intros Htag. unfold json_elem. change (T_STRUCT =? T_STRUCT) with true. cbn [app].
+    rewrite json_relem_obj. cbv zeta.
+    assert (Ht : jget_str s_tag [(s_tag, JStr (tag_string G tag)); (s_value, JArr l)] = tag_string G tag) by reflexivity.
+    assert (Hy : json_type [(s_tag, JStr (tag_string G tag)); (s_value, JArr l)] = T_STRUCT) by reflexivity.
+    assert (Hv : jget s_value [(s_tag, JStr (tag_string G tag)); (s_value, JArr l)] = Some (JArr l)) by reflexivity.
+    rewrite Ht, Hy, jfind_map_id, Hv, (resolve_tag_string G Hok) by exact Htag. reflexivity.
+  Qed.
+
+  Lemma json_big_false v : json_big v = false -> - 2 ^ 63 <= v < 2 ^ 63.
+  Proof. unfold json_big. lia. Qed.
+
+  (** the JSON writer's output is read back call for call *)
+  Lemma json_item_faithful : forall i, json_item_ok i = true ->
+    faithful1 (json_fmt G) i (json_relem G (json_write1 G i)).
+  Proof.
+    unfold json_item_ok.
+    induction i as [tag kids IH|tag v|tag v|tag v|tag rtag v|tag b|tag s|tag s|tag v|tag v|tag rtag v] using item_ind';
+      cbn [text_item_ok json_write1]; intros Hi;
+      (match type of Hi with (tag_ok _ && _) = true => apply andb_true_iff in Hi as [Htag Hv] | tag_ok _ = true => rename Hi into Htag end);
+      try (rewrite json_relem_leaf by (unfold T_INT, T_LONG, T_BIG, T_ENUM, T_BOOL, T_TEXT, T_BYTES, T_DATE, T_INTV; auto; lia));
+      try (constructor; cbn [json_fmt p_int p_long p_big p_enum p_bool p_text p_bytes p_date p_intv p_mask]).
+    - rewrite json_relem_struct by exact Htag. constructor. rewrite map_map.
+      apply (faithful_map (json_fmt G) (fun k => json_relem G (json_write1 G k))).
+      rewrite Forall_forall in *. intros k Hin. apply IH; [exact Hin|]. rewrite forallb_forall in Hv. apply Hv, Hin.
+    - unfold json_int64. rewrite parse_int_fmt_int by (unfold in_i32 in Hv; lia). cbn [bind]. unfold in_range.
+      replace ((v <? - 2 ^ 31) || (2 ^ 31 - 1 <? v)) with false by (unfold in_i32 in Hv; lia). reflexivity.
+    - (* long integer: number below 2^52 in magnitude, 0x%016x string from there on *)
+      destruct (json_big v) eqn:Eb.
+      + rewrite go_parse_int_hex by (unfold to_u64; apply Z.mod_pos_bound; lia). rewrite to_i64_to_u64 by exact Hv. reflexivity.
+      + unfold json_int64. apply parse_int_fmt_int; [lia|]. unfold in_i64 in Hv. lia.
+    - (* big integer: decimal number below 2^52 in magnitude, two's-complement hex string from there on *)
+      destruct (json_big v) eqn:Eb.
+      + rewrite has_prefix_0x_cons, go_from_0x. cbn [negb bind].
+        destruct (big_bytes_roundtrip v 8) as [_ [Hb Hr]]. rewrite hex_decode_encode by exact Hb. cbn [bind]. exact Hr.
+      + unfold json_int64. apply parse_int_fmt_int; [lia|]. unfold json_big in Eb. lia.
+    - (* enumeration *)
+      pose proof (enum_roundtrip G Hok (real_tag rtag tag) v Hv) as He. unfold enum_string in He.
+      destruct (r_enum_name G (real_tag rtag tag) v) as [[|c n]|] eqn:E; try exact He.
+      destruct (rk_enum G Hok _ _ _ E) as [Hid _].
+      rewrite json_carry_id; [exact He|].
+      assert (Hch : forallb (fun c => (33 <=? c) && (c <=? 126)) (c :: n) = true).
+      { pose proof (ident_tok _ Hid) as Ht. apply tok_ok_inv in Ht as [_ Ht]. rewrite forallb_forall in *. intros x Hx. specialize (Ht x Hx). unfold tok_char in Ht. lia. }
+      clear - Hch. unfold json_text_ok. generalize (c :: n) Hch. clear. intros s.
+      assert (H : forall fuel s, forallb (fun c => (33 <=? c) && (c <=? 126)) s = true -> snd (text_scan (fun _ => true) fuel s) = true).
+      { induction fuel as [|f IH]; intros [|c r] Hs; try reflexivity. cbn [forallb] in Hs. apply andb_true_iff in Hs as [Hc Hr].
+        cbn [text_scan utf8_decode]. replace (c <? 128) with true by lia. cbn [drop Z.to_nat Pos.to_nat Pos.iter_op Nat.add skipn].
+        replace ((c =? 65533) && (1 =? 1)) with false by lia. cbn [orb negb snd]. apply IH. exact Hr. }
+      apply H.
+    - reflexivity.
+    - rewrite json_carry_id by exact Hv. reflexivity.
+    - apply hex_decode_encode. exact Hv.
+    - rewrite fmt_rfc3339_no_prefix by exact Hv. apply rfc3339_roundtrip. exact Hv.
+    - unfold json_int64. rewrite parse_int_fmt_int by (unfold in_u32 in Hv; lia). cbn [bind]. unfold in_range.
+      replace ((v <? 0) || (2 ^ 32 - 1 <? v)) with false by (unfold in_u32 in Hv; lia). reflexivity.
+    - apply (json_mask_roundtrip G Hok). exact Hv.
+  Qed.
+
+  (** C04, JSON: for all representable call sequences the reader's view of the written values
+      mirrors the calls (the JSON reader never flags anything invalid lazily) *)
+  Theorem json_faithful items : forallb json_item_ok items = true ->
+    faithful (json_fmt G) items (map (json_relem G) (map (json_write1 G) items)).
+  Proof.
+    intros Hi. rewrite map_map. apply (faithful_map (json_fmt G) (fun k => json_relem G (json_write1 G k))).
+    rewrite Forall_forall. intros k Hin. apply json_item_faithful. rewrite forallb_forall in Hi. apply Hi, Hin.
+  Qed.
+
+  Theorem json_reread_roundtrip i : json_item_ok i = true -> json_reread G i (json_write1 G i) = Ok i.
+  Proof.
+    intros Hi. pose proof (json_item_faithful i Hi) as Hf. unfold json_reread, json_cursor. cbn [c_open bind].
+    rewrite (proj1 (read_faithful (json_fmt G)) i _ Hf []). reflexivity.
+  Qed.
+
+  Theorem json_value_roundtrip i : json_item_ok i = true -> value_item i = true ->
+    json_unmarshal G (json_write1 G i) = Ok i.
+  Proof.
+    intros Hi Hv. pose proof (json_item_faithful i Hi) as Hf. unfold json_unmarshal, json_cursor. cbn [c_open bind].
+    pose proof (faithful1_tag (json_fmt G) i _ Hf) as Ht. unfold c_tag. cbn [fst].
+    destruct (json_relem G (json_write1 G i)) as [t y raw kids kb]. subst t.
+    rewrite (proj1 (dec_faithful (json_fmt G)) i _ Hf Hv); [reflexivity|]. cbn [forest_size fold_right]. lia.
+  Qed.
+End Faithfulness.
+
+(** ------------------------------------------------------------ the checker over dumped tables is sound *)
+
+Lemma assoc_z_in {A} k (l : list (Z * A)) v : assoc_z k l = Some v -> In (k, v) l.
+Proof.
+  induction l as [|[k' v'] l IH]; [discriminate|]. cbn [assoc_z]. destruct (k' =? k) eqn:E.
+  - intros H; inversion H; subst. apply Z.eqb_eq in E. subst. left. reflexivity.
+  - intros H. right. apply IH, H.
+Qed.
+
+Lemma nth_error_combine {A B} (a : list A) (b : list B) i x y :
+  nth_error a i = Some x -> nth_error b i = Some y -> In (x, y) (combine a b).
+Proof.
+  revert b i. induction a as [|a0 a IH]; intros [|b0 b] [|i]; cbn [nth_error combine]; try discriminate.
+  - intros H1 H2; inversion H1; inversion H2; subst. left. reflexivity.
+  - intros H1 H2. right. eapply IH; eassumption.
+Qed.
+
+Lemma nth_error_bit_indices i : (i < 32)%nat -> nth_error bit_indices i = Some (Z.of_nat i).
+Proof.
+  intros Hi. change bit_indices with (map Z.of_nat (seq 0 32)).
+  rewrite nth_error_map, (nth_error_nth' _ 0%nat) by (rewrite seq_length; exact Hi). rewrite seq_nth by exact Hi. reflexivity.
+Qed.
+
+Theorem tables_ok_sound T : tables_okb T = true -> registry_ok (reg_of_tables T).
+Proof.
+  unfold tables_okb. intros H. apply andb_true_iff in H as [H Hm]. apply andb_true_iff in H as [Ht He].
+  rewrite forallb_forall in Ht, He, Hm. constructor; cbn [reg_of_tables r_tag_name r_tag_by_name r_enum_name r_enum_by_name r_mask_names r_mask_by_name].
+  - intros t n Hn. apply assoc_z_in in Hn. specialize (Ht _ Hn). cbn [fst snd] in Ht.
+    apply andb_true_iff in Ht as [Ht H3]. apply andb_true_iff in Ht as [H1 H2].
+    split; [exact H1|]. split.
+    + intros ->. rewrite seqb_refl in H2. discriminate.
+    + destruct (assoc_s n (t_tags_rev T)) as [t'|]; [|discriminate]. apply Z.eqb_eq in H3. congruence.
+  - intros t v n Hn. destruct (assoc_z t (t_enums T)) as [m|] eqn:Em; [|discriminate].
+    apply assoc_z_in in Em. apply assoc_z_in in Hn. specialize (He _ Em). cbn [fst snd] in He.
+    rewrite forallb_forall in He. specialize (He _ Hn). cbn [fst snd] in He. apply andb_true_iff in He as [H1 H2].
+    split; [exact H1|]. destruct (assoc_z t (t_enums_rev T)) as [m'|]; [|discriminate].
+    destruct (assoc_s n m') as [v'|]; [|discriminate]. apply Z.eqb_eq in H2. congruence.
+  - intros t i n Hn. destruct (assoc_z t (t_masks T)) as [l|] eqn:El; [|destruct i; discriminate].
+    apply assoc_z_in in El. specialize (Hm _ El). cbn [fst snd] in Hm. apply andb_true_iff in Hm as [Hl Hm].
+    assert (Hi : (i < List.length l)%nat) by (apply nth_error_Some; congruence).
+    assert (Hi32 : (i < 32)%nat) by (unfold len in Hl; lia).
+    split; [exact Hi32|]. rewrite forallb_forall in Hm.
+    specialize (Hm _ (nth_error_combine _ _ _ _ _ (nth_error_bit_indices i Hi32) Hn)). cbn [fst snd] in Hm.
+    apply andb_true_iff in Hm as [H1 H2]. split; [exact H1|].
+    destruct (assoc_z t (t_masks_rev T)) as [m'|]; [|discriminate].
+    destruct (assoc_s n m') as [v'|]; [|discriminate]. apply Z.eqb_eq in H2. congruence.
+Qed.
+
+(** ------------------------------------------------------------ statements used by Props/C04.v *)
+
+(** every typed operation of a reader whose scalar parsers return, returns on every cursor *)
+Lemma typed_ops_return {R} (F : rawfmt R) : fmt_total F -> forall (c : cur R) tag rtag,
+  returns (c_integer F tag c) /\ returns (c_long F tag c) /\ returns (c_big F tag c) /\
+  returns (c_enum F rtag tag c) /\ returns (c_bool F tag c) /\ returns (c_text F tag c) /\
+  returns (c_bytes F tag c) /\ returns (c_date F tag c) /\ returns (c_intv F tag c) /\
+  returns (c_mask F rtag tag c) /\ returns (c_next c).
+Proof.
+  intros H c tag rtag. unfold c_integer, c_long, c_big, c_enum, c_bool, c_text, c_bytes, c_date, c_intv, c_mask.
+  repeat split; try (apply c_scalar_returns; intros; apply H). apply c_next_returns.
+Qed.
+
+Lemma xml_ops_return G (c : cur XRaw) tag rtag :
+  returns (c_integer (xml_fmt G) tag c) /\ returns (c_long (xml_fmt G) tag c) /\ returns (c_big (xml_fmt G) tag c) /\
+  returns (c_enum (xml_fmt G) rtag tag c) /\ returns (c_bool (xml_fmt G) tag c) /\ returns (c_text (xml_fmt G) tag c) /\
+  returns (c_bytes (xml_fmt G) tag c) /\ returns (c_date (xml_fmt G) tag c) /\ returns (c_intv (xml_fmt G) tag c) /\
+  returns (c_mask (xml_fmt G) rtag tag c) /\ returns (c_next c).
+Proof. apply typed_ops_return, xml_fmt_total. Qed.
+
+Lemma json_ops_return G (c : cur JRaw) tag rtag :
+  returns (c_integer (json_fmt G) tag c) /\ returns (c_long (json_fmt G) tag c) /\ returns (c_big (json_fmt G) tag c) /\
+  returns (c_enum (json_fmt G) rtag tag c) /\ returns (c_bool (json_fmt G) tag c) /\ returns (c_text (json_fmt G) tag c) /\
+  returns (c_bytes (json_fmt G) tag c) /\ returns (c_date (json_fmt G) tag c) /\ returns (c_intv (json_fmt G) tag c) /\
+  returns (c_mask (json_fmt G) rtag tag c) /\ returns (c_next c).
+Proof. apply typed_ops_return, json_fmt_total. Qed.
+
+Lemma xml_dec_value_returns G fuel tag (c : cur XRaw) :
+  (2 * forest_size (fst c) < fuel)%nat -> returns (dec_value (xml_fmt G) fuel tag c).
+Proof. apply dec_value_returns, xml_fmt_total. Qed.
+Lemma json_dec_value_returns G fuel tag (c : cur JRaw) :
+  (2 * forest_size (fst c) < fuel)%nat -> returns (dec_value (json_fmt G) fuel tag c).
+Proof. apply dec_value_returns, json_fmt_total. Qed.
+
+(** Struct with any callback that returns, returns *)
+Lemma xml_struct_returns G {A} tag (f : cur XRaw -> res (A * cur XRaw)) c :
+  (forall sub, returns (f sub)) -> returns (c_struct (xml_fmt G) tag f c).
+Proof. intros H. apply c_struct_returns. intros; apply H. Qed.
+Lemma json_struct_returns G {A} tag (f : cur JRaw -> res (A * cur JRaw)) c :
+  (forall sub, returns (f sub)) -> returns (c_struct (json_fmt G) tag f c).
+Proof. intros H. apply c_struct_returns. intros; apply H. Qed.
+
+(** scalar lexical round trips, for all numbers *)
+Lemma json_long_roundtrip G v : in_i64 v = true ->
+  p_long (json_fmt G) (if json_big v then JStr (s_0x ++ hex_pad 16 false (to_u64 v)) else JNum (fmt_int v)) = Ok v.
+Proof.
+  intros Hv. cbn [json_fmt p_long]. destruct (json_big v) eqn:Eb.
+  - rewrite go_parse_int_hex by (unfold to_u64; apply Z.mod_pos_bound; lia). rewrite to_i64_to_u64 by exact Hv. reflexivity.
+  - unfold json_int64. apply parse_int_fmt_int; [lia|]. unfold in_i64 in Hv. lia.
+Qed.
+
+Lemma json_bigint_roundtrip G v :
+  p_big (json_fmt G) (if json_big v then JStr (s_0x ++ hex_encode false (big_bytes v 8)) else JNum (fmt_int v)) = Ok v.
+Proof.
+  cbn [json_fmt p_big]. destruct (json_big v) eqn:Eb.
+  - rewrite has_prefix_0x_cons, go_from_0x. cbn [negb bind].
+    destruct (big_bytes_roundtrip v 8) as [_ [Hb Hr]]. rewrite hex_decode_encode by exact Hb. cbn [bind]. exact Hr.
+  - unfold json_int64. apply parse_int_fmt_int; [lia|]. unfold json_big in Eb. lia.
+Qed.
+
+Lemma xml_bigint_roundtrip G v : p_big (xml_fmt G) (hex_encode true (big_bytes v 1)) = Ok v.
+Proof.
+  cbn [xml_fmt p_big]. destruct (big_bytes_roundtrip v 1) as [_ [Hb Hr]]. rewrite hex_decode_encode by exact Hb. cbn [bind]. exact Hr.
+Qed.
